@@ -195,7 +195,8 @@ func c01Exhaustive(full bool) []string {
 // heterogeneous data (stale-register defects only show when the same code is re-entered with different data).
 func c01Alt(full bool) []string {
 	pats := []string{"$a", "[$a]", "[$a, $b]", "{$a}", "{$a, b: [$c]}", "{a: $a}", "{$a: $b}", "{$a: [$b]}", "{\"a\": $c}", "{(\"a\", \"b\"): $a}", "[[$a]]", "[$a, [$b]]", "{a: {b: $c}}", "{$b, $c}", "[{$a}]", "{$a, $b: {$c}}", "[$c, {$a}]", "{b: [$b], $a}"}
-	bodies := []string{"[$a, $b, $c]", "if $c == null then error(\"retry\") else [$a, $b, $c] end", "[$a, $b, $c], (select($a == null) | error(\"late\"))"}
+	bodies := []string{"[$a, $b, $c]", "if $c == null then error(\"retry\") else [$a, $b, $c] end", "[$a, $b, $c], (select($a == null) | error(\"late\"))",
+		"if $c == null then ([$a, $b] | halt_error(3)) else [$a, $b, $c] end", "[$a, $b, $c], (select($b == null) | halt)"}
 	var out []string
 	for i, p1 := range pats {
 		for j, p2 := range pats {
